@@ -78,6 +78,7 @@ func ExecSt(c StCase) (res core.Result) {
 	defer startMu.Unlock()
 	defer func() {
 		if r := recover(); r != nil {
+			core.HarnessPanic(r)
 			res = core.Result{Viol: core.Violate("C13/panic", "server.Start path panicked: %v", r)}
 		}
 	}()
